@@ -736,6 +736,86 @@ pub fn run_seq(base: Instant, l: &Lim, vs: bool, seq: &[Op], dump: bool) -> Resu
     })
 }
 
+/// Receiver memory stays bounded by the window however often the peer repeats itself: a stream is
+/// advanced by `advance` bytes (sent, read), then one range of unread data is sent `dups` times in
+/// well-filled packets. Duplicates consume no flow-control credit, so only the reassembly buffer's own
+/// bookkeeping bounds what they pin. Returns a violation description.
+pub fn dup_on_advanced(base: Instant, vs: bool, advance: u64, flen: usize, dups: usize, unordered: bool) -> Result<Option<String>, String> {
+    guarded(|| {
+        let l = Lim { name: "wide", recv_window: 4_000_000, stream_window: 65_536, max_uni: 4, max_bidi: 2, dgram_buf: 1000 };
+        let cfg = cfg_of(&l, vs);
+        let idle = Plan { no_read: true, ..Default::default() };
+        let mut p: StdPair = std_pair_plans(base, &cfg, idle.clone(), idle);
+        let mut g = 0;
+        while g < 400 {
+            g += 1;
+            let est = !p.client().conn.is_handshaking() && p.server().map_or(false, |s| !s.conn.is_handshaking()) && p.client().app.obs.handshake_confirmed;
+            if est && p.w.net.is_empty() {
+                break;
+            }
+            if !p.w.step() {
+                break;
+            }
+        }
+        let victim = if vs { SERVER } else { CLIENT };
+        let pnode = 1 - victim;
+        let vch = if vs { p.sch().expect("server conn") } else { p.cch };
+        let mut pup = puppet_for(&p, if vs { Side::Client } else { Side::Server }).expect("puppet");
+        p.w.deaf[pnode] = true;
+        p.w.blackhole[pnode] = true;
+        p.w.keep_data = false;
+        let (src, dst) = (p.w.nodes[pnode].addr, p.w.nodes[victim].addr);
+        let id = slot_id(vs, 0);
+        let sid = StreamId::from(VarInt::from_u64(id).unwrap());
+        let mut read_all = |p: &mut StdPair| {
+            let s = p.w.nodes[victim].conns.get_mut(&vch).unwrap();
+            let mut rs = s.conn.recv_stream(sid);
+            let rd = rs.read(!unordered);
+            if let Ok(mut ch) = rd {
+                while let Ok(Some(_)) = ch.next(usize::MAX) {}
+                let _ = ch.finalize();
+            };
+        };
+        // advance the stream
+        let mut off = 0u64;
+        while off < advance {
+            let n = 1000.min(advance - off);
+            let data: Vec<u8> = (0..n).map(|i| pattern(id, off + i)).collect();
+            let d = pup.packet(2, &[WFrame::Stream { id, off, fin: false, data, has_len: true }]);
+            p.w.inject(src, dst, d, Duration::ZERO);
+            while p.w.net.iter().any(|f| f.injected) {
+                p.w.step();
+            }
+            off += n;
+            read_all(&mut p);
+            p.w.settle_conn(victim, vch);
+        }
+        // the same unread range again and again (a byte is left out in front so that it stays unread
+        // in ordered mode)
+        let start = advance + 1;
+        let data: Vec<u8> = (0..flen as u64).map(|i| pattern(id, start + i)).collect();
+        for _ in 0..dups {
+            let d = pup.packet(2, &[WFrame::Stream { id, off: start, fin: false, data: data.clone(), has_len: true }]);
+            p.w.inject(src, dst, d, Duration::ZERO);
+            while p.w.net.iter().any(|f| f.injected) {
+                p.w.step();
+            }
+        }
+        let slot = p.w.slot(victim, vch).unwrap();
+        if !slot.lost.is_empty() {
+            return Some(format!("the connection ended: {:?}", slot.lost));
+        }
+        let pr = slot.conn.verif_probe();
+        let worst = pr.streams.recv_memory.iter().copied().max_by_key(|(a, _, _)| *a).unwrap_or((0, 0, 0));
+        let (alloc, _uniq, chunks) = worst;
+        // distinct unread bytes are at most flen; the window is 65 536
+        if alloc > 3 * flen + 65_536 || chunks > 1100 {
+            return Some(format!("{dups} copies of one {flen}-byte range behind offset {advance}: the stream's reassembly buffer accounts for {alloc} allocated bytes in {chunks} chunks ({} distinct bytes are unread, the stream window is 65536)", flen));
+        }
+        None
+    })
+}
+
 pub fn main(args: &Args) -> ! {
     if args.replay.is_some() {
         replay(args);
@@ -829,6 +909,33 @@ pub fn main(args: &Args) -> ! {
         "discarded data (stop, reset) counts as consumed at its highest received offset / final size".into(),
     ];
     let _ = SSTATE;
+    // receiver memory under repetition, on fresh and on advanced streams
+    {
+        let mut cases = vec![];
+        for vs in [true, false] {
+            for advance in [0u64, 30_000, 70_000, 200_000] {
+                for flen in [100usize, 1000] {
+                    for unordered in [false, true] {
+                        cases.push((vs, advance, flen, unordered));
+                    }
+                }
+            }
+        }
+        let n = cases.len();
+        let dups = if thorough { 600 } else { 250 };
+        let (res, capped) = e3(cases, dl, |(vs, advance, flen, unordered)| dup_on_advanced(base, *vs, *advance, *flen, dups, *unordered));
+        rep.exhaustive &= !capped;
+        for ((vs, advance, flen, unordered), r) in &res {
+            rep.evaluations += 1;
+            let rj = json!({"check":"c06","kind":"dup","vs":vs,"advance":advance,"flen":flen,"unordered":unordered,"dups":dups});
+            match r {
+                Err(e) => rep.violation(Violation { signature: "panic".into(), what: format!("duplicates on an advanced stream: panic: {e}"), replay: rj }),
+                Ok(Some(w)) => rep.violation(Violation { signature: "reassembly-memory-exceeds-window".into(), what: format!("victim={} {}: {w}", if *vs { "server" } else { "client" }, if *unordered { "unordered reads" } else { "ordered reads" }), replay: rj }),
+                Ok(None) => {}
+            }
+        }
+        rep.part("duplicates_on_advanced_streams", json!({"cases": n, "copies_per_case": dups, "capped": capped}));
+    }
     rep.finish()
 }
 
